@@ -76,6 +76,8 @@ DIRECTED += tdgen.diamond_cases()
 DIRECTED += tdgen.forward_class_cases()
 # a local name spelled like an earlier def / defset: the innermost declaration wins
 DIRECTED += tdgen.shadowed_def_cases()
+# an include statement inside a block body (quick tier: the random generator keeps includes at top level)
+DIRECTED += tdgen.nested_include_cases()
 
 
 def gen_batch(ctx, n, probe_every=3):
